@@ -41,7 +41,8 @@ def obligations(tier):
 
 def run(tier, only=''):
     V = driver.Verdicts('C06', tier)
-    obs = [o for o in obligations(tier) if only in o.id]
+    from vlib.props import C12
+    obs = [o for o in obligations(tier) + C12.inference_obligations(tier, 0, 'card') if only in o.id]
     driver.log(f'C06 {tier}: {len(obs)} CrossHair obligations')
     for ob, r in zip(obs, xhair.run_all(obs, log=driver.log)):
         V.add_xhair(ob, r)
@@ -52,14 +53,19 @@ def run(tier, only=''):
                      'argument cardinalities and every tuple of set sizes in their concretisation, the size of the '
                      'cartesian product / union / coalescence lies in the concretisation of the cardinality the '
                      'real functions return. Set sizes are unbounded symbolic integers; a "Confirmed over all '
-                     'paths" verdict covers all of them.'),
+                     'paths" verdict covers all of them. Second part (obligations card.*): each accepted query of a compositional '
+                     'family (symbolic choice of atom, wrappers, binary form; hand-built qlast) is compiled by the REAL EdgeQL '
+                     'compiler and evaluated by a reference evaluator on every instance of a family of explicit databases x '
+                     'parameter sets: the number of result elements lies in the inferred cardinality, and an inferred multiplicity '
+                     'UNIQUE means a duplicate-free result. This exercises the __infer_* rules for paths over required / optional / '
+                     'single / multi pointers, type intersections, LIMIT / OFFSET (constant, parameter, 0), FILTER, FOR, tuples, set '
+                     'literals, UNION, DISTINCT, EXISTS, count, ??, IF/ELSE, IN, parameters (required / optional), DETACHED, shapes.'),
         bounds={'arguments': '0..3', 'cardinalities': 'ONE, AT_MOST_ONE, AT_LEAST_ONE, MANY',
                 'set sizes': 'all integers (gamma restricts to the admissible ones)'},
-        stubs=[],
+        stubs=C12.COMMON['stubs'],
         trusted_base=['gamma(): concretisation of the four cardinalities (20 lines, in the harness)',
-                      'CrossHair int/enum models, z3'],
-        assumptions=['Only the bounds algebra is decided; every __infer_* rule over IR (FILTER on exclusive '
-                     'pointers, LIMIT, FOR, aggregates, shapes), multiplicity inference and comparison with '
-                     'evaluated query results need the EdgeQL parser and std schema, which cannot be built here.'],
-        outside=['all __infer_* rules', 'multiplicity (duplicate-freedom) inference', 'more than 3 arguments'],
+                      'CrossHair int/enum models, z3'] + C12.COMMON['trusted'],
+        assumptions=['queries the compiler rejects are outside', 'FILTER on exclusive pointers is not exercised (concrete '
+                     'constraints need compiled expressions with the real std library)'],
+        outside=['more than 3 arguments of the bounds algebra'] + C12.COMMON['outside'],
     )
